@@ -102,6 +102,19 @@ fn eps(rng: &mut Rng) -> i64 {
     }
 }
 
+/// An instant for the reference file of the -newer family: a year or so before the clock,
+/// or (`old`) before the epoch, down to fractions of a second before it.
+fn ref_instant(rng: &mut Rng, base_now: i64, old: bool) -> i64 {
+    if !old {
+        return base_now - rng.irange(1, 500) * DAY * NS + rng.irange(0, NS - 1);
+    }
+    match rng.weighted(&[3, 1, 1]) {
+        0 => -(rng.irange(1, 15_000) * DAY * NS) + rng.irange(0, NS - 1),
+        1 => -rng.irange(1, NS - 1),
+        _ => rng.irange(-3, 3),
+    }
+}
+
 impl Property for C15 {
     const ID: &'static str = "C15";
     type Sc = Sc;
@@ -110,6 +123,8 @@ impl Property for C15 {
         // a clock decades away from the wall clock
         let base_now: i64 = 3_786_912_000 * NS + rng.irange(0, 400 * DAY) * NS + rng.irange(0, NS - 1);
         let kind = rng.weighted(&[55, 10, 10, 25]);
+        // the reference file's timestamps (and with them the entries') lie before 1970
+        let old = rng.chance(1, 8);
         let mut nfiles = rng.urange(1, 6);
         let mut files = vec![];
         let mut now_rel_ctime = None;
@@ -157,7 +172,7 @@ impl Property for C15 {
             }
             1 => {
                 test = Test::Newer;
-                let rm = base_now - rng.irange(1, 500) * DAY * NS + rng.irange(0, NS - 1);
+                let rm = ref_instant(rng, base_now, old);
                 ref_times = (base_now - rng.irange(0, 900 * DAY) * NS, rm);
                 for _ in 0..nfiles {
                     let m = rm + *rng.pick(&[-NS, -1, 0, 0, 1, NS, 5 * DAY * NS, -5 * DAY * NS]);
@@ -177,7 +192,7 @@ impl Property for C15 {
                         delta: *rng.pick(&[-NS, -1, 0, 1, NS]),
                     });
                 }
-                let rm = base_now - rng.irange(1, 500) * DAY * NS + rng.irange(0, NS - 1);
+                let rm = ref_instant(rng, base_now, old);
                 ref_times = (rm + rng.irange(-10, 10) * DAY * NS, rm);
                 for i in 0..nfiles {
                     let d = *rng.pick(&[-NS, -1, 0, 0, 1, NS, 5 * DAY * NS, -5 * DAY * NS]);
@@ -194,7 +209,7 @@ impl Property for C15 {
                     nfiles = 1;
                 }
                 // reference file with three different timestamps
-                let ra = base_now - rng.irange(1, 500) * DAY * NS + rng.irange(0, NS - 1);
+                let ra = ref_instant(rng, base_now, old);
                 let rm = ra + *rng.pick(&[-300, -7, 7, 300]) * DAY * NS;
                 ref_times = (ra, rm);
                 let ry = match y {
